@@ -358,6 +358,33 @@ func (m *Model) eval(e *Expr, pos int) Res {
 		return Res{K: Match, Pos: r.Pos, NVals: 1, First: r.First, Last: r.Last,
 			Ev: []Event{{Field: e.Field, Sub: n, IsSub: true, Start: pos, End: r.Pos, First: r.First, Last: r.Last}}}
 	case KPars:
+		if e.S == "N" {
+			// the embedded parser: a plain sequence; it fails where the sequence fails and the position it had
+			// reached is what the enclosing parser sees
+			p, first, last := pos, -1, -1
+			var vals []string
+			for i, leaf := range nestLeaves {
+				r := m.eval(leaf, p)
+				if r.K != Match {
+					if i == 0 {
+						return Res{K: NoMatch, Pos: pos}
+					}
+					return Res{K: Fail, Pos: p}
+				}
+				if first < 0 {
+					first = r.First
+				}
+				last = r.Last
+				if i%2 == 0 {
+					vals = append(vals, m.Raw[r.First].Value)
+				}
+				p = r.Pos
+			}
+			m.capsSeen++
+			m.ParseableNodes++
+			return Res{K: Match, Pos: p, NVals: 1, First: first, Last: last,
+				Ev: []Event{{Field: e.Field, Vals: vals, Start: pos, End: p, First: first, Last: last}}}
+		}
 		// user-implemented production: takes the next non-elided token, whatever it is
 		ne := m.nextNE(pos)
 		if m.Raw[ne].EOF || (e.S == "R" && strings.ContainsAny(m.Raw[ne].Value, "bB")) {
